@@ -21,7 +21,9 @@ Seqs == UNION {[1..k -> Codes] : k \in 1..2}
 VARIABLES codes, attr, mark
 vars == <<codes, attr, mark>>
 Attrs == {"none", "packed", "aligned16", "aligned32", "pack2"}
-Marks == {"blocklist", "opaque-option", "opaque-annotation"}
+(* "blocklist+opaque": both markings name the type; the blocklist decides (never defined, named at its uses, *)
+(* nothing derived through it)                                                                             *)
+Marks == {"blocklist", "opaque-option", "opaque-annotation", "blocklist+opaque"}
 
 Init == codes \in Seqs /\ attr \in Attrs /\ mark \in Marks
 Next == UNCHANGED vars
@@ -39,6 +41,6 @@ Container == [kind |-> "struct",
 
 Emit == PrintT(<<"CASE", ToJson([codes |-> codes, attr |-> attr, mark |-> mark,
                                  inner |-> IL, container |-> CLayoutOf(Container),
-                                 defined_by_bindgen |-> mark # "blocklist",
-                                 blob_only |-> mark # "blocklist"])>>)
+                                 defined_by_bindgen |-> mark \notin {"blocklist", "blocklist+opaque"},
+                                 blob_only |-> mark \notin {"blocklist", "blocklist+opaque"}])>>)
 =============================================================================
